@@ -28,8 +28,8 @@ def check(pid, engine, category, technique, text, note, ref):
 check('C17', 'oset', 'exploration',
       'deterministic simulation: seeded interleaved operation histories with live iterators and rejected calls, checked step by step against a list reference model',
       'Seeded search over histories of every OrderedSet/QuerySet operation issued by 1-3 interleaved clients on 2-3 sets, '
-      'including iterators suspended between scheduler steps that remove the element just yielded and rejected calls that must '
-      'leave the set unchanged; after every step list, reversed, len, membership, first/last and equality are compared with a '
+      'including iterators suspended between scheduler steps that remove the element just yielded (or replace it: remove it and '
+      'add another element, which may be visited once or not at all) and rejected calls that must leave the set unchanged; after every step list, reversed, len, membership, first/last and equality are compared with a '
       'plain-list reference; equality also against operands that are no collection of hashable elements (None, numbers, '
       'instances, lists of lists, a navigation chain), which must compare unequal and return. A clean batch is evidence over '
       'the sampled histories, not a proof.',
@@ -65,7 +65,7 @@ check('C10', 'store', 'exploration', STORE_TECH,
       'independently drawn spelling; after every step every attribute of every live instance is read under every case pattern '
       '(exhaustive for names of up to four letters) and compared with the single value the reference holds, as is the serialized '
       'text; writes to referential attributes must be rejected without effect; referential constructor keywords are spelled '
-      'freely as well. 30 % of the histories end with a keyword spelled exactly like a constructor parameter (kind= / self=; '
+      'freely as well; one equality filter may name an attribute twice under two spellings. 30 % of the histories end with a keyword spelled exactly like a constructor parameter (kind= / self=; '
       'known finding). The attribute list of a populated class is edited in mid-history (an attribute deleted and another one '
       'inserted, so that the number stays the same; attributes appended; new classes and an association defined).',
       STORE_NOTE, 'DESIGN.md §4 C10, §12.13, §12.17')
@@ -89,8 +89,10 @@ check('C16', 'store', 'exploration', STORE_TECH,
       'arbitrary subsets are sorted across either phrase. Oracle: permutation, every chain contiguous from its head along the '
       'opposite phrase, ring once around from the first member; termination by a step meter (sys.monitoring line events) with '
       'a wall-clock backstop that is only believed after confirmation in a fresh process. 4 % of the histories end with a '
-      'chain or ring of 1100-2500 instances (created in scrambled order) sorted across both phrases.', STORE_NOTE,
-      'DESIGN.md §4 C16, §12.14')
+      'chain or ring of 1100-2500 instances (created in scrambled order) sorted across both phrases. Half of the sorts are '
+      'followed by a second sort of the same QuerySet object after it lost the chain of its first member, got it back at its '
+      'end, or had its first member moved to the end.', STORE_NOTE,
+      'DESIGN.md §4 C16, §12.14, §12.18')
 check('C19', 'store', 'exploration', STORE_TECH,
       'Creation histories with any mix of positional, keyword (any spelling, repeated) and omitted arguments on schemas with all '
       'core types in lower/upper/capitalised type names and a class with an unknown type; uuid generator on a seeded entropy '
@@ -169,7 +171,8 @@ check('C01', 'storedisk', 'exploration',
       'reals, unset = null) and link pairs; checkpoint - restart - checkpoint must reproduce the text. A checkpoint hit by a crash '
       'or I/O error is unacknowledged: its torn file must load or be rejected with ParsingException, and the run goes on in memory. '
       'Between checkpoints the attribute list of a populated class may be edited (attribute deleted, another inserted, every live '
-      'instance given a value).',
+      'instance given a value) and the schema may grow; a quarter of the restarts first feed the loader a torn copy of one of the '
+      'files and, when it is rejected, go on with the same loader.',
       STORE_NOTE + ' Persistable domain = states whose referential values resolve (the join of the format reproduces the links); '
       'checkpoints of other states are skipped and counted. The variant without CREATE TABLE statements is not compared. One known '
       'finding (carriage returns through text-mode file routes) is listed in known_findings.json.', 'DESIGN.md §4 C01')
